@@ -252,9 +252,24 @@ func Var(name string, s Sort) *Term {
 	return t
 }
 
+// IntVarBounded: an integer variable with known bounds. Terms are hash-consed process-wide and the bounds are part of
+// the term (folding uses them, the solver pipe asserts them at declaration), so they are part of the variable's
+// identity: the name carries them. (Before, the term was keyed by the bare name and the bounds were overwritten on
+// every call - two workers creating the Skolem variable "sk3_q" of two different paths with different bounds changed
+// each other's bounds: a data race that, rarely, produced a counterexample the real build did not reproduce.)
 func IntVarBounded(name string, lo, hi *big.Int) *Term {
-	t := mk(OVar, IntSort, name, 0, 0)
-	t.Lo, t.Hi = lo, hi
+	b := func(x *big.Int) string {
+		if x == nil {
+			return "u"
+		}
+		return strings.ReplaceAll(x.String(), "-", "m")
+	}
+	t := mk(OVar, IntSort, name+"_b"+b(lo)+"_"+b(hi), 0, 0)
+	mu.Lock()
+	if t.Lo == nil && t.Hi == nil {
+		t.Lo, t.Hi = lo, hi
+	}
+	mu.Unlock()
 	return t
 }
 
